@@ -36,7 +36,7 @@ ASSUMPTIONS = [
     "zarr_compressor=None so that stored bytes are the block's raw content (digest comparison is exact)",
     "random arrays are compared with their own reference run (root seed is fixed at build time), plus distinctness of blocks",
 ]
-NSHARDS = {"quick": 16, "thorough": 32}
+NSHARDS = {"quick": 16, "thorough": 16}
 PER_SHARD = {"quick": 14, "thorough": 80}
 
 
@@ -381,10 +381,10 @@ def finalize(tier, merged):
     return {
         "rule": RULE,
         "floors": [
-            ("adversarial schedules executed", c.get("schedules", 0), 3000 if tier == "quick" else 30000),
-            ("stored arrays compared with the reference schedule", c.get("stored_arrays_compared", 0), 6000 if tier == "quick" else 60000),
-            ("tasks executed in a fresh process", c.get("fresh_process_tasks", 0), 30 if tier == "quick" else 400),
-            ("random arrays checked (re-execution + distinct streams)", c.get("random_arrays_checked", 0), 150 if tier == "quick" else 2500),
+            ("adversarial schedules executed", c.get("schedules", 0), 3000 if tier == "quick" else 15000),
+            ("stored arrays compared with the reference schedule", c.get("stored_arrays_compared", 0), 6000 if tier == "quick" else 30000),
+            ("tasks executed in a fresh process", c.get("fresh_process_tasks", 0), 30 if tier == "quick" else 200),
+            ("random arrays checked (re-execution + distinct streams)", c.get("random_arrays_checked", 0), 150 if tier == "quick" else 1250),
         ],
         "assumptions": ASSUMPTIONS,
     }
